@@ -399,6 +399,8 @@ func c32SchedPart(r *vmc.Result) {
 	r.Info["sched_preemption_bound_completed"] = bounds
 }
 
+// TestVerif_C32Debug is a debugging aid, skipped unless C32_SCRIPT names a script: it prints the default
+// schedule of the script with its free / paid choice points, or (C32_BOUND=n) the size of the bound-n exploration.
 func TestVerif_C32Debug(t *testing.T) {
 	name := os.Getenv("C32_SCRIPT")
 	sc, ok := c32ScriptByName(name)
